@@ -15,5 +15,6 @@ INVARIANTS
   DeclaredRoEndsRo
   WritableIffDecl
   MaskedRevealNothing
+  OnlyDeclaredWritable
 ALIAS Alias
 CHECK_DEADLOCK FALSE
